@@ -39,7 +39,7 @@ INVARIANT CompleteWhenApplied
 """
 
 
-def model(N, MaxAr=2, WithConst=False, KindMode="node", MaxCalls=1, mutant=None, timeout=3000):
+def model(N, MaxAr=2, WithConst=False, KindMode="node", MaxCalls=1, mutant=None, timeout=14000):
     c = dict(N=N, MaxAr=MaxAr, WithConst="TRUE" if WithConst else "FALSE", KindMode=KindMode, MaxCalls=MaxCalls,
              CountPerNode="FALSE", FirstMutable="FALSE", MutAddNoneAliases="FALSE")
     if mutant:
@@ -78,7 +78,7 @@ FWD_MODELS = {"quick": [dict(N=4, MaxAr=2, WithConst=True, KindMode="edge")],
               "thorough": [dict(N=4, MaxAr=3, WithConst=True, KindMode="edge"), dict(N=5, MaxAr=2, WithConst=False, KindMode="edge")]}
 
 
-def fwd_model(N, MaxAr=2, WithConst=False, KindMode="edge", mutant=False, timeout=3000):
+def fwd_model(N, MaxAr=2, WithConst=False, KindMode="edge", mutant=False, timeout=14000):
     c = dict(N=N, MaxAr=MaxAr, WithConst="TRUE" if WithConst else "FALSE", KindMode=KindMode, Mut="TRUE" if mutant else "FALSE")
     return vlib.run_tlc("MCFwdImpl", cfg=FWD_CFG % c, workers=16, timeout=timeout, tag="MCFwdImpl")
 
